@@ -327,7 +327,12 @@ def get_type_hints(
         hints = {}
     # KW_ONLY is a special sentinel to denote kw-only params in a dataclass.
     #  We don't want to do anything with this hint/field. It's not real.
-    hints = {f: t for f, t in hints.items() if t is not compat.KW_ONLY}
+    #  (`InitVar[X]` marks a constructor parameter of type `X`.)
+    hints = {
+        f: t.type if isinstance(t, dataclasses.InitVar) else t
+        for f, t in hints.items()
+        if t is not compat.KW_ONLY
+    }
     if not hints and exhaustive:
         hints = _hints_from_signature(obj)
     return hints
